@@ -301,6 +301,8 @@ def obs_equal(a, b):
             if x != y:
                 return False, "row %d: %s vs %s" % (i, x, y)
         return False, "rows differ"
+    if a.get("sorted_ok") is not None and b.get("sorted_ok") is not None and a["sorted_ok"] != b["sorted_ok"]:
+        return False, "sortedness %s vs %s" % (a["sorted_ok"], b["sorted_ok"])
     if a.get("kinds") is not None and b.get("kinds") is not None and a["kinds"] != b["kinds"]:
         return False, "dtype kinds %s vs %s" % (a["kinds"], b["kinds"])
     return True, ""
